@@ -213,6 +213,53 @@ Section Sanitize.
     if unique (batch_type_names patch defs root_title)
     then Ok (batch_type_names patch defs root_title) else Err.
 
+  (* Derived name of the inline object schema (without title) of property p of
+     definition d: convert.rs convert_object `tmp_type_name = get_type_name(..)`
+     = sanitize(d, Pascal); structs.rs:56-62 `format!("{}_{}", base,
+     prop_name.to_snake_case())` as Name::Suggested; get_type_name -> sanitize(..,
+     Pascal); type_patch. *)
+  Definition derived_name (patch : list (ustring * ustring)) (d p : ustring) : ustring :=
+    type_patch patch
+      (sanitize (sanitize d Pascal ++ [c_underscore] ++ to_snake_case cls p) Pascal).
+
+  (* lib.rs assign_type: a named entry whose name is already in name_to_id reuses
+     that id (no new entry), else a new entry is created *)
+  Definition add_derived (created : list ustring) (n : ustring) : list ustring :=
+    if umem n created then created else created ++ [n].
+
+  (* one definition (key, names of its properties with an inline object schema):
+     the inline types are assigned while the definition is converted, then
+     convert_ref_type stores the definition's own entry (always a new entry;
+     name_to_id is overwritten) *)
+  Definition convert_def (patch : list (ustring * ustring)) (created : list ustring)
+             (dp : ustring * list ustring) : list ustring :=
+    fold_left add_derived (List.map (derived_name patch (fst dp)) (snd dp)) created
+    ++ [type_patch patch (sanitize (fst dp) Pascal)].
+
+  (* names of all named entries created by one call on a fresh type space, in
+     creation order; the titled root (title, inline object properties) is last *)
+  Definition created_names (patch : list (ustring * ustring))
+             (defs : list (ustring * list ustring))
+             (root : option (ustring * list ustring)) : list ustring :=
+    let c := fold_left (convert_def patch) defs [] in
+    match root with
+    | Some r => convert_def patch c r
+    | None => c
+    end.
+
+  (* lib.rs add_ref_types_impl with both checks: batch_names (c22ef06, definition
+     level) and created_names (40183ea: every named entry created by the call has
+     its own name).  A definition-level duplicate is also a duplicate of
+     created_names, so the outcome is Err iff created_names has a duplicate.
+     Not modelled: field collisions inside the definitions (struct_members),
+     inline types other than titleless object properties, nesting deeper than
+     one level, replaced definitions, earlier calls (name_to_id not empty). *)
+  Definition add_batch_full (patch : list (ustring * ustring))
+             (defs : list (ustring * list ustring))
+             (root : option (ustring * list ustring)) : outcome (list ustring) :=
+    if unique (created_names patch defs root)
+    then Ok (created_names patch defs root) else Err.
+
 End Sanitize.
 
 (* ------------------------------------------------------------------ *)
@@ -322,6 +369,14 @@ Definition run_defs (cls : CharClasses) (defs : list ustring) : string :=
 Definition run_batch (cls : CharClasses) (patch : list (ustring * ustring)) (defs : list ustring)
            (root_title : option ustring) : string :=
   match add_batch cls patch defs root_title with
+  | Ok ids => show_list (List.map show_ustring ids)
+  | Err => "err"
+  | Panic => "panic"
+  end.
+
+Definition run_batch_full (cls : CharClasses) (patch : list (ustring * ustring))
+           (defs : list (ustring * list ustring)) (root : option (ustring * list ustring)) : string :=
+  match add_batch_full cls patch defs root with
   | Ok ids => show_list (List.map show_ustring ids)
   | Err => "err"
   | Panic => "panic"
